@@ -10,9 +10,13 @@ def side(f):
     try:
         return ('ok', f())
     except core.ConstructError as e:
+        _LASTPATH[0] = getattr(e, 'path', None)
         return ('reject',)
     except Exception as e:
         return ('foreign', type(e).__name__)
+
+
+_LASTPATH = [None]
 
 
 def plain(v):
@@ -36,6 +40,7 @@ def plain(v):
 def o_law(src, right, datas, values, kw=None):
     a, b = C.get(src), C.get(right)
     kw = kw or {}
+    renames = 'Renamed(' in right and ' / ' in src
     for d in datas:
         ra, rb = side(lambda: a.parse(d, **kw)), side(lambda: b.parse(d, **kw))
         if ra[0] == 'foreign' or rb[0] == 'foreign':
@@ -44,6 +49,12 @@ def o_law(src, right, datas, values, kw=None):
             continue
         if ra[0] != rb[0]:
             return 'parse(%r): left %s, right %s' % (d, ra if ra[0] != 'ok' else 'returns %r' % (ra[1],), rb if rb[0] != 'ok' else 'returns %r' % (rb[1],))
+        if ra[0] == 'reject' and renames:
+            # the two spellings of a renaming name the same members: the same failure is reported under the same path
+            side(lambda: a.parse(d, **kw)); pa = _LASTPATH[0]
+            side(lambda: b.parse(d, **kw)); pb = _LASTPATH[0]
+            if pa != pb:
+                return 'parse(%r) fails in %r on the left and in %r on the right' % (d, pa, pb)
         if ra[0] == 'ok' and not ((C.peq(ra[1], rb[1]) or C.peq(rb[1], ra[1]) or ra[1] != ra[1]) and repr(plain(ra[1])) == repr(plain(rb[1]))):
             return 'parse(%r): left %r, right %r' % (d, ra[1], rb[1])
     for v in values:
@@ -126,6 +137,10 @@ def laws(rng, tier):
         out.append(('"n" / %s' % x if '(' not in x else '"n" / (%s)' % x, 'Renamed(%s, "n")' % x, datas, vals))
         for w in ('Hex', 'HexDump'):
             out.append(('%s(%s)' % (w, x), x, datas + [b'\xac\x02', b'\xff\xff\xff\x01'], vals))
+    # renaming what is already named keeps both names (the inner one stays in error paths)
+    for inner in ('Byte', 'Int16ub', 'Struct("q"/Byte)', 'Const(b"Z")'):
+        out.append(('"b" / ("a" / %s)' % inner, 'Renamed(Renamed(%s, "a"), "b")' % inner, [b'', b'\x01', b'\x01\x02', b'Z'], [1, None, 'x', 300, dict(q=1)]))
+        out.append(('Struct("s" / ("b" / ("a" / %s)), "t"/Byte)' % inner, 'Struct("s" / Renamed(Renamed(%s, "a"), "b"), "t"/Byte)' % inner, [b'', b'\x01', b'Z'], [dict(s=1, t=300), dict(s=None, t=1)]))
     for n in (0, 1, 3, 7):
         out.append(('Padding(%d)' % n, 'Padded(%d, Pass)' % n, [bytes(k) for k in range(0, n + 2)] + [b'\xff' * n], [None, b'', 5]))
     out.append(('Byte + Int16ub', 'Struct(Byte, Int16ub)', [b'\x01\x02\x03', b'\x01'], [dict(), None]))
